@@ -49,7 +49,8 @@ func gen(seed uint64, n int, outDir, corpusDir string) {
 	distinct := map[string]bool{}
 	seenHit := map[string]int{}
 	ucases := 0
-	add := func(c Case) {
+	var add func(c Case)
+	add = func(c Case) {
 		if !c.observed {
 			c.Obs = Obs{}
 			observe(&c)
@@ -71,6 +72,12 @@ func gen(seed uint64, n int, outDir, corpusDir string) {
 		cases = append(cases, c)
 		if nontrivial(&c) {
 			distinct[caseKey(&c)] = true
+		}
+		if c.Mode == "life" {
+			// every same-kind pair of votes the life sent goes through the real builder and validator evidence paths
+			for _, x := range evidencesOfLife(&c) {
+				add(x)
+			}
 		}
 	}
 	for _, c := range loadCorpus(corpusDir) {
@@ -133,7 +140,14 @@ func replay(file string) {
 	observe(&c)
 	ob, _ := json.Marshal(c.Obs)
 	fmt.Printf("observed: %s\n", ob)
-	hits := oracleAny(&c, probeFixes())
+	fx := probeFixes()
+	hits := oracleAny(&c, fx)
+	if c.Mode == "life" { // and every same-kind pair of its votes through the real evidence paths
+		for _, x := range evidencesOfLife(&c) {
+			observe(&x)
+			hits = append(hits, oracleAny(&x, fx)...)
+		}
+	}
 	for _, x := range hits {
 		fmt.Printf("ORACLE VIOLATION: %s: %s\n", x.What, x.Detail)
 	}
@@ -174,6 +188,13 @@ func mkCorpus(dir string) {
 	head := uint64(57)
 	c.Head = &head
 	put("h1_head_is_not_the_parent.json", "regression (fixed ec9154c): block 51 built/validated while the local head is 57: the evidence of round 50 must still be judged against parent height 50", c)
+	c = baseWorld()
+	c.Headers = append(c.Headers, Hdr{Num: 0, Set: 0})
+	c.Mode = "life"
+	c.LRun = &LifeRun{Key: 0, Ops: []LifeOp{{Op: "ctx", Step: 1, Best: 1}, {Op: "ctx", Step: 2, Best: 1}, {Op: "restart"},
+		{Op: "ctx", Step: 1, Best: 2}, {Op: "ctx", Step: 2, Best: 2}, {Op: "kill", Kill: "after"}, {Op: "quorum", Kind: 2, Hash: 3},
+		{Op: "ctx", Step: 1, Best: 4}, {Op: "quorum", Kind: 2, Hash: 5}}}
+	put("l1_restart_reenters_position.json", "life: prevote 1 and next-index at (50,1), restart, re-entry at the prevote step with best block 2 (no second prevote may leave), crash after the precommit record is stored, re-entry again (regression for seed C05_7: NewVoteDB must restore the marks of ALL kinds cast in the position)", c)
 	c = baseWorld()
 	c.Headers = append(c.Headers, Hdr{Num: 0, Set: 0})
 	c.Mode = "voter"
